@@ -90,7 +90,7 @@ def run(c):
     c.audit("Rink.Props.C04", [t for t in THEOREMS if ".C04." in t])
     if c.thorough:
         c.leanchecker(["Rink.Model.Eval", "Rink.Model.Number", "Rink.Props.C04"])
-    st = vlib.eval_stream(c, "gen-c04", independent=False, budget_ms=3000, judge=judge, group_start="reset", ans_taint=True)
+    st = vlib.eval_stream(c, "gen-c04", independent=False, budget_ms=3000, judge=judge, group_start="reset", ans_taint=True, retry_pred=lambda a: a.get("class") == "cheap")
     if st is None:
         return
     stack_probes(c)
